@@ -312,6 +312,9 @@ class MarkupTemplate(Template):
         """
         match_templates = ctxt._match_templates
 
+        def _retired(event, namespaces, variables, updateonly=False):
+            return None
+
         def _strip(stream, append):
             depth = 1
             while 1:
@@ -345,8 +348,11 @@ class MarkupTemplate(Template):
                     # of this window up to and including the one that matched
                     seen = [mt[0] for mt in match_templates[start:idx + 1]]
                     if 'match_once' in hints:
-                        del match_templates[idx]
-                        idx -= 1
+                        # Retire the template but keep its slot in the list:
+                        # the windows (start, end, idx) of every active
+                        # invocation of this filter are positions in that list
+                        match_templates[idx] = (_retired,) + \
+                                               match_templates[idx][1:]
 
                     # Let the remaining match templates know about the event so
                     # they get a chance to update their internal state
